@@ -6,12 +6,18 @@
 (* ensureCapacity re-allocates the table).  After every logged call:       *)
 (* estimate >= lb (never under-counts), <= 15, all zero before             *)
 (* initialisation, halved by an aging step; admit = Sketch!Admit.          *)
+(* The sampling period itself is part of the model: the sample counter     *)
+(* (logged) restarts when the table is re-allocated, advances by at most   *)
+(* one per recording and not at all for a key whose estimate is already    *)
+(* 15 (none of its counters can change), and the aging step fires exactly  *)
+(* when it reaches the sample size (10 x capacity) - otherwise estimates   *)
+(* are halved before the period the property speaks about is over.         *)
 (***************************************************************************)
 EXTENDS Integers, Sequences, FiniteSets, TLC, Json, IOUtils
 Recs == ndJsonDeserialize(IOEnv.VERIF_TRACE)
 NK == 12
-VARIABLES i, lb, prev, dev
-vars == <<i, lb, prev, dev>>
+VARIABLES i, lb, prev, psize, dev
+vars == <<i, lb, prev, psize, dev>>
 F(idx, name, detail) == [rec |-> idx, pred |-> name, detail |-> ToString(detail)]
 Min2(a, b) == IF a < b THEN a ELSE b
 Admit(fc, fv, r) == fc > fv \/ (fc >= 6 /\ r % 128 = 0)
@@ -40,18 +46,25 @@ Devs(r, idx) ==
            THEN <<F(idx, "C18.estimate_decreased", <<prev, r.est>>)>> ELSE <<>>)
        \o (IF r.tp = "inc" /\ r.aged = 0 /\ r.inited = 1 /\ est(r.k) = prev[r.k + 1] /\ prev[r.k + 1] < 15
            THEN <<F(idx, "C18.increment_lost", <<r.k, prev, r.est>>)>> ELSE <<>>)
+       \o (IF r.tp = "ensure" /\ r.grew = 1 /\ r.size # 0 THEN <<F(idx, "C18.sample_not_restarted", <<r.size, r.sample>>)>> ELSE <<>>)
+       \o (IF r.tp = "inc" /\ r.inited = 1 /\ r.aged = 0 /\ (r.size \notin {psize, psize + 1} \/ r.size >= r.sample)
+           THEN <<F(idx, "C18.sample_counter", <<psize, r.size, r.sample>>)>> ELSE <<>>)
+       \o (IF r.tp = "inc" /\ r.inited = 1 /\ r.aged = 0 /\ prev[r.k + 1] = 15 /\ r.size # psize
+           THEN <<F(idx, "C18.saturated_recording_counted", <<r.k, psize, r.size>>)>> ELSE <<>>)
+       \o (IF r.tp = "inc" /\ r.aged = 1 /\ psize + 1 # r.sample THEN <<F(idx, "C18.aged_before_sample_size", <<psize, r.sample>>)>> ELSE <<>>)
        \o (IF r.tp = "admit" /\ (r.admit = 1) # Admit(r.fc, r.fv, r.r) THEN <<F(idx, "C18.admit", <<r.fc, r.fv, r.r, r.admit>>)>> ELSE <<>>)
        \o (IF r.tp = "admit" /\ r.est # prev THEN <<F(idx, "C18.admit_changed_estimates", <<prev, r.est>>)>> ELSE <<>>)
 
-Init == i = 1 /\ lb = Zero /\ prev = [k \in 1 .. NK |-> 0] /\ dev = <<>>
+Init == i = 1 /\ lb = Zero /\ prev = [k \in 1 .. NK |-> 0] /\ psize = 0 /\ dev = <<>>
 Next == \/ /\ i <= Len(Recs)
            /\ lb' = NewLb(Recs[i])
            /\ prev' = Recs[i].est
+           /\ psize' = Recs[i].size
            /\ dev' = dev \o (IF Recs[i].tp = "reset" THEN <<>> ELSE Devs(Recs[i], i))
            /\ i' = i + 1
         \/ /\ i = Len(Recs) + 1
            /\ JsonSerialize(IOEnv.VERIF_DEVOUT, [n |-> Len(Recs), devs |-> dev])
            /\ i' = i + 1
-           /\ UNCHANGED <<lb, prev, dev>>
+           /\ UNCHANGED <<lb, prev, psize, dev>>
 Spec == Init /\ [][Next]_vars
 =============================================================================
